@@ -89,7 +89,7 @@ ApplyFails(kind, st, step, s, ob) ==
      \* normal scores: the ranks are a permutation of 1..n
      \cup (IF kind = "NS"
            THEN LET D == {i \in 1..n : ob.dom[i] = 1} IN
-                When({ob.ranks[i] : i \in D} # 1..Cardinality(D) \/ ob.nuse # Cardinality(D) \/ ob.ranksres > -500, F("ns-ranks", s, "fwd", 0, ob.ranksres))
+                When({ob.ranks[i] : i \in D} # 1..Cardinality(D) \/ ob.nuse # Cardinality(D) \/ ob.ranksres > AccRank, F("ns-ranks", s, "fwd", 0, ob.ranksres))
            ELSE {})
      \* PCA / MAF: as many factors as variables
      \cup (IF kind \in {"PCA", "MAF"} THEN When(ob.added # nv, F("pca-nfac", s, step.op, 0, ob.added)) ELSE {})
